@@ -312,6 +312,12 @@ def run_large(key):
     res["clauses"]["range"] = 1
     if not (-1e-3 <= base <= 1 + 1e-3):
         V(res, key, "range", {"M": base})
+    g_, d_, s_ = mods()
+    res["clauses"]["layout_irrelevant"] = 1
+    res["n"] += 1
+    mf = float(d_.misorientation_index(np.asfortranarray(A), getattr(g_.LatticeSystem, key["system"])))
+    if not abs(mf - base) <= 1e-12:
+        V(res, key, "layout_irrelevant", {"M_fortran_order": mf, "M_contiguous": base})
     for nm, p in perms.items():
         m = mindex(A[p], key["system"])
         vals.append(m)
